@@ -7,6 +7,7 @@ import (
 	"encoding/binary"
 	"fmt"
 	"net"
+	"sync"
 	"sync/atomic"
 	"time"
 
@@ -62,6 +63,7 @@ type Server struct {
 
 // IPPool is a simple IP address pool for PPPoE clients
 type IPPool struct {
+	mu        sync.Mutex // the receive loop and the idle cleanup loop both use the pool
 	network   *net.IPNet
 	gateway   net.IP
 	available []net.IP
@@ -107,6 +109,9 @@ func NewIPPool(network string, gateway string) (*IPPool, error) {
 // A session that already holds an address gets the same address again
 // (e.g. a retransmitted PAP Authenticate-Request re-enters IPCP start).
 func (p *IPPool) Allocate(sessionID string) net.IP {
+	p.mu.Lock()
+	defer p.mu.Unlock()
+
 	if ip, ok := p.allocated[sessionID]; ok {
 		return ip
 	}
@@ -121,6 +126,9 @@ func (p *IPPool) Allocate(sessionID string) net.IP {
 
 // Release releases an IP back to the pool
 func (p *IPPool) Release(sessionID string) {
+	p.mu.Lock()
+	defer p.mu.Unlock()
+
 	if ip, ok := p.allocated[sessionID]; ok {
 		delete(p.allocated, sessionID)
 		p.available = append(p.available, ip)
@@ -660,6 +668,11 @@ func (s *Server) handleLCPTermRequest(session *Session, pkt *LCPPacket) {
 	}
 	s.sendPPPPacket(session, ProtocolLCP, resp.Serialize())
 
+	// Release IP (as for a PADT)
+	if s.clientIPPool != nil {
+		s.clientIPPool.Release(session.SessionID)
+	}
+
 	// Terminate session
 	session.SetState(StateClosed)
 	s.sessions.RemoveSession(session.ID)
@@ -963,10 +976,16 @@ func (s *Server) cleanupLoop(ctx context.Context) {
 			if timeout == 0 {
 				timeout = 5 * time.Minute
 			}
-			removed := s.sessions.CleanupExpired(timeout)
-			if removed > 0 {
+			removed := s.sessions.RemoveExpired(timeout)
+			// The sessions are gone: their addresses go back to the pool
+			if s.clientIPPool != nil {
+				for _, session := range removed {
+					s.clientIPPool.Release(session.SessionID)
+				}
+			}
+			if len(removed) > 0 {
 				s.logger.Info("Cleaned up expired PPPoE sessions",
-					zap.Int("count", removed),
+					zap.Int("count", len(removed)),
 				)
 			}
 		}
